@@ -221,6 +221,74 @@ theorem C03_reachable_dirty_encode_is_wire (m : Msg) (hr : Reachable m) (hd : m.
     (ctr : UInt64) (e : Encoded) (he : encode m ctr m.len = .ok e) : e.out = Wire.encode (absMsg e.msg) :=
   reachable_dirty_encode_wire hr hd hw ctr e he
 
+/-! ### … up to the form of the remaining length
+
+MQTT 3.1.1 (section 2.2.3) does not require the shortest form of the remaining length, and the decoders accept
+the longer ones.  `Wire.Encodes bs p`: `bs` is the type/flags byte of `p`, a one- to four-byte form of the length
+of its body, and its body (`Wire.encode p` is the one with the shortest form).  With this reading of "the MQTT
+3.1.1 wire encoding of the message's fields" witness 1 above is no counterexample any more, and the in-place
+path is covered for every remaining-length form a client may use; what stays excluded (`ExcludedV`) is a clean
+object whose input was not an encoding of the returned fields at all — the CONNECT of witness 2. -/
+
+/-- the statement with `Encodes`; still false as it stands, because of the leniently accepted CONNECT -/
+def ReachableEncodeIsEncoding : Prop :=
+  ∀ m, Reachable m → WillOk m → ∀ (ctr : UInt64) (e : Encoded), encode m ctr m.len = .ok e →
+    Wire.Encodes e.out (absMsg e.msg)
+
+theorem C03_reachable_encode_is_encoding_counterexample : ¬ ReachableEncodeIsEncoding := by
+  intro H
+  have hw := C03_reachable_encode_is_wire_witnesses.2
+  cases hr : run cexConnect [] with
+  | none => rw [hr] at hw; cases hw
+  | some m =>
+    rw [hr] at hw
+    simp only [] at hw
+    have hreach : Reachable m := (reachable_iff m).mpr ⟨_, _, hr⟩
+    cases he : encode m 0 m.len with
+    | ok e =>
+      rw [he] at hw
+      have hw := of_decide_eq_true hw
+      obtain ⟨v, _, hv⟩ := H m hreach hw.2.2.2.2 0 e he
+      -- the reference encoding of the fields has a body of 15 bytes; the 15 bytes written cannot hold it
+      have hb : (absMsg e.msg).body.length = 15 := by
+        have h2 := congrArg List.length hw.2.1
+        unfold Wire.encode at h2
+        simp only [List.length_cons, List.length_append, List.length_nil] at h2
+        have := varint_len_bounds (absMsg e.msg).body.length
+        by_cases h128 : (absMsg e.msg).body.length < 128
+        · have : (Wire.varint (absMsg e.msg).body.length).length = 1 := by unfold Wire.varint; rw [if_pos h128]; rfl
+          omega
+        · omega
+      have h1 := congrArg List.length hv
+      rw [hw.1] at h1
+      unfold Wire.encodeV at h1
+      simp only [List.length_cons, List.length_append, List.length_nil] at h1
+      omega
+    | err => rw [he] at hw; cases hw
+    | panic => rw [he] at hw; cases hw
+
+/-- `_partial`: the bytes `Encode` writes are an MQTT 3.1.1 encoding (`Wire.Encodes`) of the message's current
+fields for every run that is not `ExcludedV` — i.e. unless the decoder's input was not the type/flags byte, a form
+of the remaining length and the body of the fields it returned (`Origin.bodyCanonical`, decidable), *and* the
+object is still clean.  For a clean object the remaining-length bytes are those of the input
+(`Proofs/CodecReachThm.rinv_encode_encodes`); a dirty one gets the shortest form. -/
+theorem C03_reachable_encode_is_encoding_partial (o : Origin) (ss : List Setter) (m : Msg) (hr : run o ss = some m)
+    (hx : ExcludedV o ss = false) (hw : WillOk m) (ctr : UInt64) (e : Encoded)
+    (he : encode m ctr m.len = .ok e) : Wire.Encodes e.out (absMsg e.msg) :=
+  run_encodes hr hx hw ctr e he
+
+/-- `ExcludedV` leaves out fewer runs than `Excluded`: a reference encoding is in particular an encoding -/
+theorem C03_excludedV_excluded (o : Origin) (ss : List Setter) (h : ExcludedV o ss = true) : Excluded o ss = true := by
+  unfold ExcludedV at h
+  unfold Excluded
+  cases hc : o.canonical with
+  | false => simpa [hc] using (by simpa using h : _ ∧ _).2
+  | true => rw [canonical_imp_bodyCanonical hc] at h; simp at h
+
+/-- witness 1 is covered by it, witness 2 is what it excludes -/
+example : ExcludedV cexPublish cexSetters = false ∧ ExcludedV cexConnect [] = true := by
+  constructor <;> decide
+
 /-- The full round-trip statement for reachable messages.  Proved for every run that is not `Excluded`
 (`…_partial`); for the excluded runs (input not a reference encoding, object still clean) it is neither
 proved nor refuted here — the witnesses above do decode back to equal fields (`example`s below), and the
